@@ -258,6 +258,61 @@ func runC17(c *fw.Ctx) {
 		}
 	})
 
+	// notation and type parameters: quoting a value that needs no quotes changes nothing
+	for _, host := range []string{"TYPE @x %s", "Request %s", "200 %s", "Body %s"} {
+		for _, val := range []string{"regex", "any", "empty", "jsight", "@t", "[@t]"} {
+			for _, which := range []string{"value", "name"} {
+				if !c.Next() {
+					continue
+				}
+				c.Count("evaluations", 1)
+				mk := func(v string) string {
+					line := fmt.Sprintf(host, v)
+					body := ""
+					switch val {
+					case "regex":
+						body = "\n    /ab+/"
+					case "jsight":
+						body = "\n    {}"
+					}
+					if strings.HasPrefix(host, "TYPE") {
+						if val == "@t" || val == "[@t]" {
+							return "" // a TYPE takes one name
+						}
+						name := "@x"
+						if which == "name" {
+							name = "\"@x\""
+							line = strings.Replace(line, "@x", name, 1)
+						}
+						return "JSIGHT 0.3\nTYPE @t any\n" + line + strings.ReplaceAll(body, "    ", "  ") + "\n"
+					}
+					pre := "JSIGHT 0.3\nTYPE @t\n  {}\nPOST /h\n"
+					switch {
+					case strings.HasPrefix(host, "Request"):
+						return pre + "  " + line + body + "\n  200 any\n"
+					case strings.HasPrefix(host, "200"):
+						return pre + "  " + line + body + "\n"
+					default:
+						return pre + "  200\n    " + line + strings.ReplaceAll(body, "    ", "      ") + "\n"
+					}
+				}
+				bare, quoted := mk(val), mk("\""+val+"\"")
+				if which == "name" {
+					quoted = mk(val)
+					bare = strings.Replace(quoted, "\"@x\"", "@x", 1)
+				}
+				if bare == "" || bare == quoted {
+					continue
+				}
+				c.Distinct("notation:" + host + val + which)
+				a, b := drv.RunMem("root.jst", bare, opt), drv.RunMem("root.jst", quoted, opt)
+				if j, same := sameResult(a, b); j && !same {
+					c.Violate("bare-vs-quoted", "C17:bare-notation:"+strings.Fields(host)[0]+":"+val, fmt.Sprintf("%s: bare gives %s, quoted gives %s", fmt.Sprintf(host, val), a.Short(), b.Short()), map[string]interface{}{"bare": bare, "quoted": quoted})
+				}
+			}
+		}
+	}
+
 	// the unescape function against the reference
 	rec("", fnLen, func(s string) {
 		if !c.Next() {
